@@ -182,7 +182,24 @@ class Check:
             ok = rc == 0 or (failed_at is not None and self._proved_before(lines, ln, failed_at))
             self.obligations.append({'name': nm, 'kind': 'theorem', 'ok': ok,
                                      'detail': '' if ok else out[-800:]})
+        if self.tier == 'thorough' and rc == 0 and not os.environ.get('VERIF_NO_COQCHK'):
+            self.coqchk(relfile)
         return rc == 0
+
+    def coqchk(self, relfile, timeout=2400):
+        """thorough tier: re-check the compiled property file and everything it depends on with the
+        independent checker, and record the axioms it reports"""
+        mod = 'GV.' + relfile[:-2].replace('/', '.')
+        rc, out = sh(['coqchk', '-silent', '-o', '-Q', os.path.join(COQ, 'theories'), 'GV', mod], cwd=COQ, timeout=timeout)
+        m = re.search(r'\* Axioms:(.*?)\n\s*\n\* Constants/Inductives relying on type-in-type:(.*?)\n\s*\n'
+                      r'\* Constants/Inductives relying on unsafe \(co\)fixpoints:(.*?)\n\s*\n'
+                      r'\* Inductives whose positivity is assumed:(.*?)\n', out + '\n', flags=re.S)
+        ok = rc == 0 and m is not None and all('<none>' in m.group(i) for i in (2, 3, 4))
+        ax = [] if not m or '<none>' in m.group(1) else [a.strip() for a in m.group(1).strip().split('\n') if a.strip()]
+        self.cov['coqchk_axioms'] = ax
+        self.obligations.append({'name': f'coqchk -o {mod} (independent re-check; no type-in-type / unsafe fixpoints / assumed positivity)',
+                                 'kind': 'coqchk', 'ok': ok, 'detail': '' if ok else out[-600:]})
+        return ok
 
     @staticmethod
     def _proved_before(lines, ln, failed_at):
